@@ -112,6 +112,10 @@ def node_tree(t) -> str:
 
 def show_type(t) -> str:
     if isinstance(t, str):
+        if t == "Tree":                            # a tree-valued EXPRESSION (`node.subtree()`): its two topology columns (id, pid)
+            return "((List Int) × (List Int))"
+        if t == "Frac":                            # the exact value of `a / b` on Python ints: the pair (a, b), b ≠ 0 (the float is its rounding)
+            return "(Int × Int)"
         return "Int" if is_node(t) else t          # a node handle is the row index it dereferences on every access
     if t[0] == "List":
         return f"(List {show_type(t[1])})"
@@ -178,6 +182,8 @@ class Fn:
     tree_cols: dict = field(default_factory=dict)  # source text of a tree-valued expression (`tree`, `self.attach`) -> {"id": var, "pid": var, "type": var}:
                                                     # the tree IS those column variables; a `Node` of it is its row index (type `Node@<text>`)
     stmt_subst: dict = field(default_factory=dict)  # source text of a statement -> python source of its meaning on the column variables
+    defaults: dict = field(default_factory=dict)    # parameter name -> source text of its default value (CHECKED against the `def` on every run; used when a
+                                                    # caller omits the argument)
     doc: str = ""
     module: str = "AlgoDsu"                         # generated file Gen/<module>.lean (one per group, so that a change to one
                                                     # source file cannot break the generated module of an unrelated property)
@@ -186,6 +192,8 @@ class Fn:
 MODULE_STRUCTS = {"AlgoDsu": ["DisjointSetUnion"], "AlgoPopulation": ["ChainTrees", "LazyLoadingTrees", "NestTrees"]}
 MODULE_IMPORTS = {"AlgoCheckers": ["AlgoDsu"], "AlgoBranches": ["AlgoTraverse"], "AlgoSubtree": ["AlgoTraverse"],
                   "AlgoRedirect": ["AlgoNode", "AlgoSort"]}
+
+MODULE_MODEL_IMPORTS = {}     # generated module -> further semantics files `SwcVerif/Model/<name>.lean` it imports (besides Model/Py.lean)
 
 STRUCTS = {
     "DisjointSetUnion": {"element_parent": "List Int", "rank": "List Int"},
@@ -327,6 +335,8 @@ class FnTr:
         """Python values of an optional slot: `x` where `Option X` is expected becomes `some x`"""
         if have == want:
             return code
+        if want == "Frac" and have == "Int":
+            return f"({code}, (1 : Int))"
         if isinstance(want, tuple) and want[0] == "Option":
             if have == want[1]:
                 return f"(some {code})"
@@ -367,6 +377,9 @@ class FnTr:
                 return s1 + s2, f"(Int.fdiv {a} {b})", "Int"       # Python `//` floors
             if isinstance(e.op, ast.Mod):
                 return s1 + s2, f"(Int.fmod {a} {b})", "Int"
+            if isinstance(e.op, ast.Div):
+                n = self.bindname()                                   # Python `/` on ints: ZeroDivisionError, else the exact quotient
+                return s1 + s2 + [f"Py.bind (Py.truediv {a} {b}) fun {n} =>"], n, "Frac"
         if ta == ("List", "Int") and tb == "Int" and isinstance(e.op, (ast.Sub, ast.Add)):
             sign = "-" if isinstance(e.op, ast.Sub) else ""
             return s1 + s2, f"(({a}).map (fun x => x + ({sign}{b})))", ("List", "Int")
@@ -714,6 +727,10 @@ class FnTr:
                 s0, rc, rt = self.tr(e.func.value)
             except Untranslatable:
                 rt = None
+            if rt is not None and isinstance(rt, tuple) and rt[0] == "Option" and is_node(rt[1]):
+                # a variable that may hold `None`: calling a method of None raises (AttributeError)
+                n0 = self.bindname()
+                s0, rc, rt = s0 + [f"Py.bind ({rc}) fun {n0} =>"], n0, rt[1]
             if rt is not None and is_node(rt):
                 callee = by_lean_global[NODE_METHODS[e.func.attr]]
                 T = node_tree(rt)
@@ -730,10 +747,52 @@ class FnTr:
                         raise Untranslatable(f"{self.spec.lean}: `{ast.unparse(e)}` needs column `{pname}`")
                 if args or kw:
                     raise Untranslatable(f"{self.spec.lean}: arguments in `{ast.unparse(e)}`")
+                if callee.fuel and not self.spec.fuel:
+                    raise Untranslatable(f"{self.spec.lean} calls {callee.lean} which needs fuel")
                 n = self.bindname()
                 rty = parse_type(callee.ret)
                 rty = retarget_nodes(rty, T)
-                return s0 + [f"Py.bind ({callee.lean} {' '.join(codes)}) fun {n} =>"], n, rty
+                return s0 + [f"Py.bind ({callee.lean} {'fuel ' if callee.fuel else ''}{' '.join(codes)}) fun {n} =>"], n, rty
+        # --- a translated METHOD of a tree (`tree.get_tips()`, `node.subtree().get_tips()`): the callee is a function of the tree's columns;
+        #     the receiver is a tree that IS column variables (`tree_cols`) or a tree-valued expression (type `Tree` = its (id, pid) columns)
+        if isinstance(e.func, ast.Attribute) and e.func.attr in TREE_METHODS:
+            rtxt = ast.unparse(e.func.value)
+            callee = by_lean_global[TREE_METHODS[e.func.attr]]
+            (ctree, ccols), = callee.tree_cols.items()
+            inv = {var: key for key, var in ccols.items()}
+            s0, have = [], None
+            if rtxt in self.spec.tree_cols:
+                have = {k: f"v.{lname(var)}" for k, var in self.spec.tree_cols[rtxt].items()}
+            else:
+                try:
+                    s0, rc, rt = self.tr(e.func.value)
+                except Untranslatable:
+                    rt = None
+                if rt == "Tree":
+                    have = {"id": f"{rc}.1", "pid": f"{rc}.2"}
+            if have is not None:
+                steps, codes = list(s0), []
+                rest = [p for p in callee.params if p not in inv]
+                given = dict(zip(rest, args))
+                given.update(kw)
+                for pname in callee.params:
+                    if pname in inv:
+                        if inv[pname] not in have:
+                            raise Untranslatable(f"{self.spec.lean}: `{ast.unparse(e)}` needs column `{inv[pname]}` of `{rtxt}`")
+                        codes.append(have[inv[pname]])
+                    elif pname in given:
+                        s1, c1, _ = self.tr(given[pname]); steps += s1; codes.append(c1)
+                    elif pname in callee.defaults:
+                        s1, c1, _ = self.tr(ast.parse(callee.defaults[pname]).body[0].value); steps += s1; codes.append(c1)
+                    else:
+                        raise Untranslatable(f"{self.spec.lean}: `{ast.unparse(e)}` does not give `{pname}`")
+                if callee.fuel and not self.spec.fuel:
+                    raise Untranslatable(f"{self.spec.lean} calls {callee.lean} which needs fuel")
+                if callee.out:
+                    raise Untranslatable(f"{self.spec.lean}: `{ast.unparse(e)}` updates its tree")
+                n = self.bindname()
+                rty = retarget_nodes(parse_type(callee.ret), rtxt)
+                return steps + [f"Py.bind ({callee.lean} {'fuel ' if callee.fuel else ''}{' '.join(codes)}) fun {n} =>"], n, rty
         # --- a translated function that takes a whole tree and updates it in place: `_sort_tree(tree)`
         if f in TREE_CALLEES and len(args) == 1 and ast.unparse(args[0]) in self.spec.tree_cols:
             callee = by_lean_global[TREE_CALLEES[f]]
@@ -883,6 +942,18 @@ class FnTr:
             return self.tr(args[0], want)
         if f == "np.unique" and len(args) == 1:
             raise Untranslatable("np.unique outside len(...)")
+        if f == "np.setdiff1d" and len(args) == 2 and set(kw) == {"assume_unique"} and isinstance(kw["assume_unique"], ast.Constant) \
+                and kw["assume_unique"].value is True:
+            # numpy: `ar1[~isin(ar1, ar2)]` in the ORDER of ar1 (no sorting, no deduplication); what it returns when ar1 repeats a value depends on
+            # the algorithm numpy picks, so the model raises there (the documented precondition; ar2 may repeat values)
+            s1, a, ta = self.tr(args[0]); s2, b, tb = self.tr(args[1])
+            if ta == ("List", "Int") and tb == ("List", "Int"):
+                n = self.bindname()
+                return s1 + s2 + [f"Py.bind (Py.setdiff1dUnique {a} {b}) fun {n} =>"], n, ("List", "Int")
+        if f == "abs" and len(args) == 1:
+            s, c, t = self.tr(args[0])
+            if t == "Int":
+                return s, f"((Int.natAbs {c} : Nat) : Int)", "Int"
         if f == "np.all" and len(args) == 1:
             s, c, t = self.tr(args[0])
             if t == ("List", "Bool"):
@@ -1029,6 +1100,8 @@ class FnTr:
             st, c, t = self.tr(s.value, want)
             if tgt.id not in self.vars and tgt.id not in self.extra_vars:
                 self.vars[tgt.id] = t
+            if isinstance(want, tuple) and want[0] == "Option" and t == want[1]:
+                c, t = self.coerce(c, t, want), want           # a value stored into a variable that may also hold None
             self.check_type(tgt.id, t, s)
             return self.chain(st, f".next {{ v with {lname(tgt.id)} := {c} }}")
         if isinstance(tgt, ast.Tuple) and all(isinstance(x, ast.Name) for x in tgt.elts):
@@ -1143,7 +1216,10 @@ class FnTr:
     def s_Return(self, s):
         if s.value is None:
             return f"(fun (v : {self.Vt}) => .ret v default)"
-        st, c, t = self.tr(s.value, parse_type(self.spec.ret))
+        rt = parse_type(self.spec.ret)
+        st, c, t = self.tr(s.value, rt)
+        if rt == "Frac" and t == "Int":
+            c = self.coerce(c, t, rt)
         return self.chain(st, f".ret v {c}")
 
     def s_Continue(self, s):
@@ -1319,6 +1395,12 @@ class FnTr:
         sp = self.spec
         if sp.nested:
             return self.translate_nested(fdef)
+        for pn, dv in sp.defaults.items():
+            a = fdef.args
+            pos = dict(zip([x.arg for x in a.args][len(a.args) - len(a.defaults):], a.defaults))
+            pos.update({x.arg: d for x, d in zip(a.kwonlyargs, a.kw_defaults) if d is not None})
+            if pn not in pos or ast.unparse(pos[pn]) != dv:
+                raise Untranslatable(f"{sp.lean}: the default of `{pn}` is `{ast.unparse(pos[pn]) if pn in pos else None}`, the spec says `{dv}`")
         self.hoist = not (sp.fuel and (f"self.{sp.func}(" in ast.unparse(fdef) or any(
             isinstance(n, ast.Call) and ast.unparse(n.func) == sp.func for n in ast.walk(fdef))))
         body = self.block(fdef.body)
@@ -1419,6 +1501,7 @@ class FnTr:
 STRUCT_CTORS = {}
 NODE_METHODS = {}       # method name of `Tree.Node` -> lean name of its translation (filled by `spec(node_method=...)`)
 TREE_CALLEES = {}       # python callee text of a function taking (and updating) a whole tree -> lean name
+TREE_METHODS = {}       # method name of `Tree` / `SWCLike` -> lean name of its translation as a function of the tree's columns (`spec(tree_method=...)`)
 
 
 def retarget_nodes(t, T):
@@ -1469,7 +1552,7 @@ SPECS: list[Fn] = []
 CALLEES: dict[str, str] = {}     # python call text -> lean name
 
 
-def spec(callee=None, node_method=None, tree_callee=None, **kw):
+def spec(callee=None, node_method=None, tree_callee=None, tree_method=None, **kw):
     f = Fn(**kw)
     SPECS.append(f)
     for c in callee or []:
@@ -1478,6 +1561,8 @@ def spec(callee=None, node_method=None, tree_callee=None, **kw):
         NODE_METHODS[node_method] = f.lean
     if tree_callee:
         TREE_CALLEES[tree_callee] = f.lean
+    if tree_method:
+        TREE_METHODS[tree_method] = f.lean
     return f
 
 
@@ -1612,6 +1697,7 @@ spec(lean="collect_branches", module="AlgoBranches", file=_TREE, cls="Tree", fun
 spec(lean="get_branches", module="AlgoBranches", file=_TREE, cls="Tree", func="get_branches",
      params=["ids", "pids"], vars={"ids": "List Int", "pids": "List Int", "branches": "List (List Int)", "child": "List Int"},
      ret="List (List Int)", fuel=True, closures={"collect_branches": "collect_branches"}, self_topology=("v.ids", "v.pids"),
+     tree_method="get_branches", tree_cols={"self": {"id": "ids", "pid": "pids"}},
      subst={"Tree.Branch(self, np.array(child, dtype=np.int32))": ("v.child", "List Int")},
      doc="`swcgeom/core/tree.py::Tree.get_branches` (the tree is its two topology columns `ids`, `pids`)")
 spec(lean="collect_furcations", module="AlgoBranches", file=_TREE, cls="Tree", func="get_furcations", nested="collect_furcations",
@@ -1620,6 +1706,7 @@ spec(lean="collect_furcations", module="AlgoBranches", file=_TREE, cls="Tree", f
 spec(lean="get_furcations", module="AlgoBranches", file=_TREE, cls="Tree", func="get_furcations",
      params=["ids", "pids"], vars={"ids": "List Int", "pids": "List Int", "furcations": "List Int", "i": "Int"},
      ret="List Int", fuel=True, closures={"collect_furcations": "collect_furcations"}, self_topology=("v.ids", "v.pids"),
+     tree_method="get_furcations", tree_cols={"self": {"id": "ids", "pid": "pids"}},
      subst={"self.node(i)": ("v.i", "Int")})
 spec(lean="assign_path", module="AlgoBranches", file=_TREE, cls="Tree", func="get_paths", nested="assign_path",
      params=["n", "pre_path"], vars={"n": "Int", "pre_path": "Option (List Int)", "path": "List Int", "path_dic": "Dict Int (List Int)"},
@@ -1688,7 +1775,8 @@ def regenerate(modules=None):
         if modules is not None and mod not in modules:
             continue
         out = ["-- GENERATED by harness/translate_algo.py from the current /repo sources. Do not edit.",
-               "import SwcVerif.Model.Py"] + [f"import {m}" if m.startswith("SwcVerif.") else f"import SwcVerif.Gen.{m}" for m in MODULE_IMPORTS.get(mod, [])] + [
+               "import SwcVerif.Model.Py"] + [f"import SwcVerif.Model.{m}" for m in MODULE_MODEL_IMPORTS.get(mod, [])] + [
+               f"import {m}" if m.startswith("SwcVerif.") else f"import SwcVerif.Gen.{m}" for m in MODULE_IMPORTS.get(mod, [])] + [
                "set_option linter.unusedVariables false", "namespace Gen.Algo", ""]
         for name in MODULE_STRUCTS.get(mod, []):
             out.append(f"structure {name} where")
